@@ -8,7 +8,7 @@
 From Coq Require Import Sorted.
 From GixV.Base Require Import Bytes BytesFacts Outcome.
 From Coq Require Import Permutation.
-From GixV.C09 Require Import Model ProofsBisect ProofsOrder ProofsLookup ProofsFanout ProofsWrite ProofsLayout ProofsOffsets.
+From GixV.C09 Require Import Model ProofsBisect ProofsOrder ProofsLookup ProofsFanout ProofsWrite ProofsLayout ProofsOffsets ProofsMidxOffsets.
 Local Open Scope N_scope.
 
 (* a full-id lookup finds an id exactly when it is present, and the index it returns holds that id;
@@ -135,6 +135,19 @@ Theorem index_file_lookup_entry : forall es ph,
       | None => ~ In id (map eid es)
       end.
 Proof. exact L_index_lookup_entry. Qed.
+
+(* multi-pack index, chunk level: for any entry list (pack ids u32, offsets u64, fewer than 2^31 entries)
+   the OOFF chunk (chunk::offsets::write) and the LOFF chunk (chunk::large_offsets::write; in use exactly
+   when some offset exceeds u32::MAX) read back, with the rule of pack_id_and_pack_offset_at_index applied
+   relative to the chunk starts ([midx_read]), to every entry's pack id and pack offset; the writer's
+   expect()/asserts cannot fire *)
+Theorem midx_offsets_chunk_RT : forall es,
+  Forall (fun e => mofs e < U64 /\ mpack e < U32) es ->
+  N.of_nat (length es) <= LARGE_OFFSET_THRESHOLD ->
+  exists ooff, ooff_chunk (needs_large es) es 0 = Ok ooff /\ length ooff = (8 * length es)%nat /\
+    forall i, (i < length es)%nat ->
+      midx_read (needs_large es) ooff (loff_chunk es) i = (mpack (nth i es mdflt), mofs (nth i es mdflt)).
+Proof. exact L_midx_offsets_chunk_RT. Qed.
 
 (* non-vacuity, and one byte-level instance end to end: three entries (one offset in the 64-bit
    table), written, opened, looked up by id and by prefix *)
